@@ -35,6 +35,10 @@ def programs(t):
     for rep in ['E7', 'E15', 'E31']:
         for (le, re) in [(-3, -3), (-8, -1), (0, 5), (2, -2)]:
             lines.append('PQ(%s, %d, %s, %d)' % (rep, le, rep, re))
+    # elastic_scaled_integer with mixed signedness / digits (the result is specified by value: every pair is in scope)
+    for (l, r) in [('EU7', 'E7'), ('E7', 'EU7'), ('EU7', 'EU7'), ('EU15', 'E3'), ('E3', 'EU15'), ('E15', 'EU7')]:
+        for (le, re) in ([(-2, -3), (0, 0)] if not t else [(-2, -3), (0, 0), (3, -1), (-8, -8)]):
+            lines.append('PQ(%s, %d, %s, %d)' % (l, le, r, re))
     return lines
 
 
@@ -53,7 +57,7 @@ def plan(tier):
         units=units,
         rule='state = (L type, R type, a, b != 0) for %d generated operand-type pairs; 8-bit reps enumerated completely, wider reps over the boundary lattice; '
              '/, %% and (where the quotient type exists) quotient() on every state; non-trivial = a is not a multiple of b' % len(lines),
-        bound=dict(programs=len(lines), radix=[2, 10], reps=['i8', 'u8', 'i16', 'u16', 'i32', 'u32', 'i64', 'u64', 'elastic_integer<7|15|31>']),
+        bound=dict(programs=len(lines), radix=[2, 10], reps=['i8', 'u8', 'i16', 'u16', 'i32', 'u32', 'i64', 'u64', 'elastic_integer<3|7|15|31> signed and unsigned, mixed']),
         assumptions=['operands whose rep is not representable in the promoted common rep type of the built-in operator (negative value, unsigned common type) are skipped',
                      'quotient() is judged in exact rationals: |q| <= |a/b|, |a/b|-|q| < one unit of the result type, sign(q) in {0, sign(a/b)}'],
         deadline_s=1500 if t else 240,
